@@ -214,6 +214,26 @@ def udp_histories(ch, hooks):
             s["timeout_ms"] = 250      # real sockets on a shared machine: a genuine reply must never look lost
         outs = conn.run_scenarios(scns, spread=True)
         hist.replay(ch, scns, outs, hooks, "c10")
+    # a reply that arrives a few bytes short, after an earlier reply of the same or a similar shape has been through the
+    # transport's receive buffer: the bytes behind the end of the datagram are not part of it - the short reply cannot be
+    # decoded, the command is re-sent, and the value returned is the BMC's
+    scns = []
+    for k, name in enumerate(("getsystemguid", "getdeviceid", "getchassisstatus")):
+        cuts = list(range(1, 12)) if not ch.quick() else sorted(rng.sample(range(1, 12), 4))
+        for session in (False, True):
+            if session and name == "getsystemguid" and ch.quick():
+                continue
+            cn = "session" if session else "sessionless"
+            if not session and name not in conn.SESSIONLESS_OK:
+                continue
+            su = hist.SUITES[k % 9]
+            steps = [{"op": "open", "user": "admin", "password": b"secret".hex(), "priv": 4, "lookup": True, "suites": [list(su)]}] if session else []
+            for c in cuts:
+                steps.append({"op": "cmd", "conn": cn, "cmd": {"name": name}, "script": ["ok"], "ctx_ms": 3000})
+                steps.append({"op": "cmd", "conn": cn, "cmd": {"name": name}, "script": ["cuttail:%d" % c], "ctx_ms": 3000})
+            scns.append({"bmc": conn.default_bmc(seed=88 + k, suites=[[100, su[0], su[1], su[2]]]), "timeout_ms": 250, "udp": True, "steps": steps})
+    outs = conn.run_scenarios(scns, spread=True)
+    hist.replay(ch, scns, outs, hooks, "c10")
     # handshake payloads: a reply lost or undecodable in each exchange, then the genuine one
     scns = []
     su = hist.SUITES[rng.randrange(9)]
